@@ -167,6 +167,9 @@ func genMixedRequest(r *core.Rand, id int, limit int, allowFaults bool) ReqSpec 
 			}
 		}
 	}
+	if sp.Proto == "http" && r.Chance(1, 2) {
+		sp.Fault.Err = "ueof"
+	}
 	return sp
 }
 
